@@ -26,9 +26,28 @@ type ProgSpec struct {
 	Cfg  string `json:"cfg"`
 }
 
-// Program regenerates the model of a spec.
+// Program regenerates the model of a spec (Cfg "witness:<name>" selects a
+// fixed hand-written witness program instead of a random one).
 func (ps ProgSpec) Program() *idl.Program {
+	if strings.HasPrefix(ps.Cfg, "witness:") {
+		return WitnessProgram(strings.TrimPrefix(ps.Cfg, "witness:"))
+	}
 	return idl.Generate(rand.New(rand.NewSource(ps.Seed)), idl.ConfigByName(ps.Cfg))
+}
+
+// WitnessProgram returns a fixed program by name.
+func WitnessProgram(name string) *idl.Program {
+	switch name {
+	case "specialdouble":
+		f := &idl.File{Base: "wdouble", Ext: ".frugal"}
+		f.Decls = append(f.Decls,
+			&idl.Decl{Struct: &idl.Struct{Kind: idl.KindStruct, Name: "WPad", Fields: []*idl.Field{{ID: 1, Name: "pad", Type: idl.T("string")}}}},
+			&idl.Decl{Service: &idl.Service{Name: "WDouble", Methods: []*idl.Method{
+				{Name: "echoDouble", Ret: idl.T("double"), Args: []*idl.Field{{ID: 1, Name: "pad", Type: idl.T("string")}, {ID: 2, Name: "d", Type: idl.T("double")}}},
+			}}})
+		return &idl.Program{Files: []*idl.File{f}, Features: map[string]bool{"witness_specialdouble": true}}
+	}
+	return &idl.Program{Features: map[string]bool{}}
 }
 
 // Result of building one batch.
